@@ -29,6 +29,8 @@ class FieldSpec:
     ignore: Dict[Tuple[str, str], str] = field(default_factory=dict)  # (K, field) -> reason ; K may be "*"
     props: Tuple[str, ...] = ()
     also_funcs: Tuple[str, ...] = ()  # helper functions whose reads of the subject count (called with the subject)
+    chain_subject: Optional[str] = None  # dispatch is on this variable ...
+    chain_adt: Optional[str] = None  # ... over this ADT; fields are those of the same-named ctor in `adt`
 
 
 P = "src/exo/core/LoopIR_pprint.py"
@@ -70,10 +72,11 @@ SPECS: List[FieldSpec] = [
     # pattern matching
     FieldSpec("MATCHFIELDS", PM, "PatternMatch.match_stmt", ("pat",), "PAST", "stmt", ignore={
         ("S_Hole", "*"): "hole matches anything",
-    }, props=("C16",)),
+        ("Call", "args"): "documented: a call pattern `f(_)` matches on the callee name only",
+    }, props=("C16",), chain_subject="stmt", chain_adt="LoopIR"),
     FieldSpec("MATCHFIELDS", PM, "PatternMatch.match_e", ("pat",), "PAST", "expr", ignore={
         ("E_Hole", "*"): "hole matches anything",
-    }, props=("C16",)),
+    }, props=("C16",), chain_subject="e", chain_adt="LoopIR"),
 ]
 
 
@@ -126,8 +129,11 @@ def rule_fields(ctx, prop: str) -> List[RuleResult]:
                         res.add(Finding(sp.rule, sp.file, f.lineno, sp.qualname, f"{K}.{fld.name}", f"field `{fld.name}` of {sp.adt}.{K} is never read from `{subj}`: it cannot influence the result"))
             res.sample(f"{sp.qualname}: product {K}, fields {[x.name for x in adtmod.ctor(K).fields]}")
             continue
-        chains = [ch for ch in find_chains(f, adts) if ch.subject == sp.subjects[0]]
-        chains = [ch for ch in chains if any(a == adt_key and adtmod.ctors[c].sum == sp.sum for a, c in ch.covered())]
+        csubj = sp.chain_subject or sp.subjects[0]
+        cadt_mod = adts.adt_for(sp.chain_adt, f.module) if sp.chain_adt else adtmod
+        cadt_key = next(k for k, v in adts.mods.items() if v is cadt_mod)
+        chains = [ch for ch in find_chains(f, adts) if ch.subject == csubj]
+        chains = [ch for ch in chains if any(a == cadt_key and cadt_mod.ctors[c].sum == sp.sum for a, c in ch.covered())]
         if not chains:
             raise AnalysisError(f"anchor vanished: dispatch on `{sp.subjects[0]}` over {sp.adt}.{sp.sum} in {sp.qualname}")
         # statements executed before the chain (common prelude) count as reads too
@@ -143,8 +149,10 @@ def rule_fields(ctx, prop: str) -> List[RuleResult]:
                         # a narrowed pre-case (e.g. bool/stride holes); the general case
                         # for K is checked on its own
                         continue
-                    if a != adt_key or adtmod.ctors[K].sum != sp.sum:
+                    if a != cadt_key or cadt_mod.ctors[K].sum != sp.sum:
                         continue
+                    if K not in adtmod.ctors:
+                        continue  # e.g. WindowStmt / WindowExpr have no pattern constructor
                     res.instances += 1
                     flds = [x for x in adtmod.ctor(K).fields if x.name != "srcinfo" and (K, x.name) not in sp.ignore and (K, "*") not in sp.ignore]
                     if flds:
